@@ -37,7 +37,7 @@ func init() {
 	RegisterSub("C17", "crossbuild", RunC17CrossBuild)
 }
 
-const c17Rule = "history: catalogue struct types x random rows x random writer configuration (gen.RandWriterCfg + bloom filters, deferred blooms, key/value metadata, declared sorting columns, forced dictionary overflow) x instance history: the file written by an instance that was Reset after {abandoned, abandoned after row-by-row writes, flushed, closed, closed empty, failed sink, two generations, reset mid-file, random op sequence, SetKeyValueMetadata} over OTHER rows (for SortingWriter + DropDuplicatedRows also over copies of the row that sorts first in the new content, run sizes 1 / random / > rows) must equal byte-for-byte the file of a fresh instance; instances GenericWriter, Writer, SortingWriter, GenericBuffer/Buffer.Reset -> WriteRowGroup; repeated fresh writes on the same and on 3 other goroutines, and with the key/value options permuted; non-trivial = non-empty rows and a prior history that wrote rows. crossbuild: per catalogue type seeded (rows, config, write path) cases and 30k/400k encoder inputs (hybrid RLE int32/levels, delta binary packed, byte stream split), big-page files (one PLAIN column per numeric kind, pages filled to the default 256 KiB target and beyond, values across 2^31 / 2^63, NaN, -0.0) and Page.Bounds of pages at the kernel-switch lengths 32112..131071(..262144) whose sha256 / output bytes the asm and purego builds must agree on (digests exchanged through .build/out/C17-digests-<variant>.json); non-trivial = more than one row / at least 8 values. mirror (L2): a real Writer under a random history vs the Lean mirror (reset.run), observation compared after every step; all cases non-trivial."
+const c17Rule = "history: catalogue struct types x random rows x random writer configuration (gen.RandWriterCfg + bloom filters, deferred blooms, key/value metadata, declared sorting columns, forced dictionary overflow) x instance history: the file written by an instance that was Reset after {abandoned, abandoned after row-by-row writes, flushed, closed, closed empty, failed sink, two generations, reset mid-file, random op sequence, SetKeyValueMetadata} over OTHER rows (for SortingWriter + DropDuplicatedRows also over copies of the row that sorts first in the new content, run sizes 1 / random / > rows) must equal byte-for-byte the file of a fresh instance; instances GenericWriter, Writer, SortingWriter, GenericBuffer/Buffer.Reset -> WriteRowGroup; repeated fresh writes on the same and on 3 other goroutines, and with the key/value options permuted; non-trivial = non-empty rows and a prior history that wrote rows. crossbuild: per catalogue type seeded (rows, config, write path) cases and 30k/400k encoder inputs (hybrid RLE int32/levels, delta binary packed, byte stream split), big-page files (one PLAIN column per numeric kind, pages filled to the default 256 KiB target and beyond, values across 2^31 / 2^63, NaN, -0.0) and Page.Bounds of pages at the kernel-switch lengths 32112..131071(..262144) whose sha256 / output bytes the asm and purego builds must agree on (digests exchanged through .build/out/C17-digests-<variant>.json); non-trivial = more than one row / at least 8 values. mirror (L2): a real Writer under a random history (first sink failing around the 4-byte file header and anywhere) vs the Lean mirror (reset.run), observation compared after every step; all cases non-trivial. repr (L1): catalogue types x random rows x the same rows RESPELLED (equal values in another memory layout: empty strings with a non-nil data pointer, strings / []byte at odd offsets inside larger arrays, slices with spare capacity, re-allocated pointers) x 4 (thorough: 6) write paths: byte-identical files; non-trivial = at least one value respelled; a third of the cross-build corpus is respelled too. hist (L1+L2): accumulateAndAppendPageLevelHistogram on slices with k earlier pages and a capacity of need-1, need, need+1, 2x, ... whose spare part holds zeros / earlier counts / -1, levels of 0..200 values in runs: appended block = the counts of the page (L1) and column histogram, slice, spare capacity = the Lean mirror ResetHist.appendPage (L2); real Writers of every catalogue type with a nullable or repeated column, abandoned mid row group / flushed / closed over other rows, then Reset (histogram fields and the arrays behind them before/after vs ResetHist.LevelHist.reset), then the rows in 1..3 row groups: every chunk's SizeStatistics / ColumnIndex level histograms vs the spec (LevelStats.chunkHists) of the levels decoded from its own pages; non-trivial = a page with levels appended to a slice with spare capacity / every writer case."
 
 // ---------------------------------------------------------------- configuration
 
@@ -60,6 +60,7 @@ type c17Cfg struct {
 	sorting    []c17Sort
 	dedupe     bool // DropDuplicatedRows(true) next to the sorting columns (sorting writers)
 	overflow   int  // > 0: DictionaryMaxBytes(16) and this PageBufferSize override the base options
+	writeBuf0  bool // WriteBufferSize(0) overrides the base option: every write reaches the sink at once
 	desc       string
 }
 
@@ -149,6 +150,9 @@ func (c *c17Cfg) opts() []parquet.WriterOption {
 	o := append([]parquet.WriterOption{}, c.base.Opts...)
 	if c.overflow > 0 {
 		o = append(o, parquet.DictionaryMaxBytes(16), parquet.PageBufferSize(c.overflow))
+	}
+	if c.writeBuf0 {
+		o = append(o, parquet.WriteBufferSize(0))
 	}
 	if len(c.bloom) > 0 {
 		var fs []parquet.BloomFilterColumn
@@ -816,6 +820,8 @@ type c17XCase struct {
 	path    string
 	sortRow int64
 	big     *c17Big // a big-page case (c17_bigpage.go): e, cfg, rows are unset
+	// rows respelled by c17Respell: equal values, other memory layout
+	respelled bool
 }
 
 func (c *c17XCase) canon() string {
@@ -843,7 +849,8 @@ func (c *c17XCase) detail(ctx *core.Ctx) map[string]any {
 		return map[string]any{"case": c.id, "input": c.big.desc(), "write_path": c.path, "this_variant": ctx.Variant}
 	}
 	return map[string]any{"case": c.id, "type": c.e.Name, "config": c.cfg.desc, "batches": c.batches, "write_path": c.path,
-		"sort_row_count": c.sortRow, "rows": c17RowTexts(c.e, c.rows), "this_variant": ctx.Variant}
+		"sort_row_count": c.sortRow, "rows": c17RowTexts(c.e, c.rows), "this_variant": ctx.Variant,
+		"rows_respelled_equal_values_other_memory_layout": c.respelled}
 }
 
 func c17XCases(ctx *core.Ctx) []*c17XCase {
@@ -854,6 +861,13 @@ func c17XCases(ctx *core.Ctx) []*c17XCase {
 		for k := 0; k < ncases; k++ {
 			n := []int{1, 2, 7, 8, 9, 33, 64, 65, 100, 257, 300, 513}[r.Intn(12)]
 			c := &c17XCase{e: e, rows: c17GenRows(r, e, n, r.Intn(3) != 0), cfg: c17RandCfg(r, e)}
+			if r.Intn(3) == 0 {
+				// equal values in another memory layout (c17_repr.go): empty strings with a non-nil
+				// data pointer, byte strings at odd offsets of larger arrays, spare capacity — the
+				// per-CPU kernels scan string/slice headers and copy bytes in vector-sized steps
+				c.rows, _ = c17Respell(r, c.rows)
+				c.respelled = true
+			}
 			c.batches = c01Batches(r, n)
 			c.sortRow = int64(1 + r.Intn(n+2))
 			switch r.Intn(5) {
@@ -1052,6 +1066,9 @@ func RunC17CrossBuild(ctx *core.Ctx) {
 			mine.Files[i] = d
 			ctx.Case(c.canon(), c.big != nil || c.rows.Len() > 1)
 			ctx.Hist("crossbuild-write-path", c.path)
+			if c.respelled {
+				ctx.Hist("crossbuild-rows-respelled", "yes")
+			}
 			for _, s := range d.secs {
 				if strings.Contains(s.Class, "page") {
 					ctx.Hist("crossbuild-page-sections", s.Class)
